@@ -30,10 +30,19 @@ impl DIDUrlQuery<'_> {
     }
   }
 
+  /// Returns whether the query starts with the DID scheme followed by a colon (`did:`), i.e. whether it is a DID Url
+  /// rather than a relative DID Url or a bare fragment (which may itself begin with the letters `did`).
+  fn is_absolute(query: &str) -> bool {
+    query
+      .strip_prefix(CoreDID::SCHEME)
+      .map(|rest| rest.starts_with(':'))
+      .unwrap_or(false)
+  }
+
   /// Extract the DID portion of the query if it exists.
   fn did_str(&self) -> Option<&str> {
     let query: &str = self.0.as_ref();
-    if !query.starts_with(CoreDID::SCHEME) {
+    if !Self::is_absolute(query) {
       return None;
     }
 
@@ -49,7 +58,7 @@ impl DIDUrlQuery<'_> {
   /// Extract the query fragment if it exists.
   fn fragment(&self) -> Option<&str> {
     let query: &str = self.0.as_ref();
-    let fragment_maybe: Option<&str> = if query.starts_with(CoreDID::SCHEME) {
+    let fragment_maybe: Option<&str> = if Self::is_absolute(query) {
       // Extract the fragment from a full DID-Url-like string.
       query.rfind('#').and_then(|index| query.get(index + 1..))
     } else if let Some(fragment_delimiter_index) = query.rfind('#') {
